@@ -102,6 +102,7 @@ Definition check_C09 := check_conn 40 49.
 Definition check_C11 := check_conn 50 59.
 Definition check_C14conn := check_conn 80 89.
 (* C10 (c): a cancel while the hello phase is waiting aborts the handshake for good *)
-Definition check_C10conn := check_conn 13 13.
+Definition check_C10conn (c : conn_case) : codes :=
+  map (fun k => if N.eqb k 1 then 1 else k + 100) (check_conn 13 13 c).   (* 113: no collision with the hub stream's codes *)
 Definition check_C06 (c : conn_case) : codes :=
   check_conn 60 60 c ++ c06_data false [] [] (cc_events c) (cc_obs c).
